@@ -354,6 +354,7 @@ def _roots(fn, expr, defs, out, seen):
 
 def run(ctx):
     """R07.5: only the tool's standard output becomes merged text."""
+    ctx.rule('R07.9', 'where equal items are trimmed from both ends before aligning, the tail scan is bounded by the head count (no overlap)', floor=1)
     ctx.rule('R07.7', 'the merge package never decides what text to keep with a similarity predicate: alignment predicates (compare_*) are called from the diffing package only', floor=1)
     ctx.rule('R07.8', 'one line model: every Python site that creates or consumes line keys splits with str.splitlines(True)', floor=4)
     ctx.rule('R07.6', 'concurrently inserted cells are paired by consistent cursors: in every arm of the splitter `taken` advances by the local and `offset` by (remote - local) items '
@@ -417,3 +418,5 @@ def run(ctx):
         ok = sig == ['splitlines(True)']
         ctx.inst('R07.8', f, 'line splitter: %s' % sig, ok, 'str.splitlines(True)' if ok else
                  'this site counts lines differently from the others: line-keyed patches of the merged source land on the wrong line (a line is dropped, another duplicated)', node)
+    from ..trim import check_trims
+    check_trims(ctx, 'R07.9', ['nbdime.merging.'])
